@@ -23,7 +23,7 @@ def _known(fn):
 HARNESSES = []
 for unit, src in (('x86op', 'h_x86fmt.cpp'), ('x86mem', 'h_x86mem.cpp')):
   for fn in _fns(src):
-    wide = fn.endswith('_wide') or fn.endswith('imm_32')
+    wide = fn.endswith('_wide') or fn.endswith('imm_24')
     HARNESSES.append(Harness(unit, fn, unwind=18, mem_gb=3, timeout=900 if not wide else 3600, tiers=('thorough',) if wide else ('quick', 'thorough'),
         bounds='register type / operand shape constant per harness; ids, size, segment, shift, displacement, immediate and all format flags symbolic; decimal numbers bounded as the template arguments say '
                '(hexadecimal: full width); label bases and label operands: 16-bit ids through a token stub of Formatter::format_label'))
